@@ -27,6 +27,10 @@ enum Op {
     /// the queued connection); the endpoint stays bound and goes on accepting
     AcceptFails(usize, u8),
     Exchange(usize),
+    /// the application does nothing for a while: seconds, minutes or hours of simulated time pass
+    /// with the endpoints bound (whatever deadlines the socket keeps must concern single
+    /// connections, not the endpoint)
+    TimePasses(u8),
     /// a second socket tries to bind an endpoint this socket is listening on
     OtherSocketBind(usize),
 }
@@ -49,7 +53,8 @@ fn bookkeeping(ctx: &mut Ctx) {
     let nops = 2 + ctx.plan(11) as usize;
     let mut ops = Vec::new();
     for _ in 0..nops {
-        let o = match ctx.plan(19) {
+        let o = match ctx.plan(21) {
+            19 | 20 => Op::TimePasses(ctx.plan(5) as u8),
             0 | 1 => Op::BindTcp4,
             2 => Op::BindTcp6,
             3 => Op::BindLocalhost,
@@ -253,6 +258,12 @@ fn bookkeeping(ctx: &mut Ctx) {
                         }
                         Err(e) => bail!("bound_endpoint_refuses", "op {n}: {text} is in the bind set but refuses a connection: {e}"),
                     }
+                }
+                Op::TimePasses(which) => {
+                    let secs = [1u64, 29, 31, 300, 90_000][*which as usize % 5];
+                    rt::task::sleep(std::time::Duration::from_secs(secs)).await;
+                    rt::task::idle().await;
+                    rt::count("probe_simulated_time_passed_between_operations");
                 }
                 Op::SilentIn(i) => {
                     if model.is_empty() {
